@@ -213,8 +213,10 @@ def run_tlc(ctx: Ctx, name: str, module: str, cfg: str | None = None, *, env: di
             workers: int | str = "auto", simulate: str | None = None, depth: int | None = None,
             timeout: int = 1800, coverage: bool = False, extra: list[str] | None = None,
             deadlock: bool = False, seed: int | None = None, record: bool = True,
-            heap: str = "8g", cont: bool = False) -> dict:
-    """Run TLC on spec/<module>.tla with spec/<cfg>. Returns dict(out, ok, distinct, generated...)."""
+            heap: str = "8g", cont: bool = False, split_json: int | None = None) -> dict:
+    """Run TLC on spec/<module>.tla with spec/<cfg>. Returns dict(out, ok, distinct, generated...).
+    split_json=k: the run prints one JSON record per state (lines starting with '"{'): they are never held in memory but
+    distributed round-robin over k files (res["json_chunks"], res["json_count"]); res["out"] holds the other lines."""
     run_dir = Path(tempfile.mkdtemp(prefix="tlc-", dir=ctx.tmp))
     cfg_path = SPEC / (cfg or f"{module}.cfg")
     if not cfg_path.exists():
@@ -246,13 +248,36 @@ def run_tlc(ctx: Ctx, name: str, module: str, cfg: str | None = None, *, env: di
     if env:
         e.update({k: str(v) for k, v in env.items()})
     t0 = time.time()
+    chunks, njson = None, 0
     try:
-        p = subprocess.run(cmd, cwd=run_dir, env=e, capture_output=True, text=True, timeout=timeout)
+        if split_json:
+            raw = run_dir / "stdout.txt"
+            with open(raw, "w") as fh:
+                p = subprocess.run(cmd, cwd=run_dir, env=e, stdout=fh, stderr=subprocess.PIPE, text=True, timeout=timeout)
+            cdir = Path(tempfile.mkdtemp(prefix="recs-", dir=ctx.tmp))
+            chunks = [cdir / f"{i}.jsonl" for i in range(split_json)]
+            fhs = [open(c, "w") for c in chunks]
+            other = []
+            with open(raw) as fh:
+                for line in fh:
+                    if line.startswith('"{'):
+                        fhs[njson % split_json].write(line)
+                        njson += 1
+                    else:
+                        other.append(line)
+            for f_ in fhs:
+                f_.close()
+            stdout = "".join(other)
+        else:
+            p = subprocess.run(cmd, cwd=run_dir, env=e, capture_output=True, text=True, timeout=timeout)
+            stdout = p.stdout
     except subprocess.TimeoutExpired as ex:
         subprocess.run(["pkill", "-f", str(run_dir)], check=False)
         raise Machinery(f"TLC run {name} exceeded {timeout}s") from ex
-    out = p.stdout + p.stderr
+    out = stdout + p.stderr
     res = {"name": name, "out": out, "rc": p.returncode, "wall_s": round(time.time() - t0, 2)}
+    if chunks is not None:
+        res["json_chunks"], res["json_count"] = [str(c) for c in chunks], njson
     m = None
     for m in _STATS.finditer(out):
         pass
